@@ -313,12 +313,26 @@ def cacheErr (st : St) (q : Query) (e : Err) : St :=
   | .noRecords _ _ _ _ (some t) => if t == 0 then st else { st with rcache := rcPut st.rcache q (.error e) }
   | _ => st
 
+/-- `strip_out_of_bailiwick` (fix 030930c): the bailiwick rule applied to the payload of a
+`NoRecordsFound` outcome — an out-of-bailiwick SOA goes together with the negative TTL derived from
+it; referral NS records, their glue and the authority records are filtered. -/
+def stripErr (zone : Name) : Err → Err
+  | .noRecords nx soa ns auths negTtl =>
+    let dropSoa := match soa with
+      | some s => !isSubzone zone s.name
+      | none => false
+    .noRecords nx (if dropSoa then none else soa)
+      ((ns.filter fun e => isSubzone zone e.1.name).map fun e => (e.1, bailiwick zone e.2))
+      (bailiwick zone auths)
+      (if dropSoa then none else negTtl)
+  | e => e
+
 /-- `RecursorDnsHandle::lookup` -/
 def lookup (cfg : Config) (net : Net) (q : Query) (zone : Name) (pool : Pool) (st : St) :
     St × Except Err Response :=
   let st := { st with asked := (pool.zone, zone, q) :: st.asked }
   match poolLookup cfg net pool q st with
-  | (st, .error e) => (cacheErr st q e, .error e)
+  | (st, .error e) => (cacheErr st q (stripErr zone e), .error (stripErr zone e))
   | (st, .ok r) =>
     match filterResponse zone r with
     | none => (st, .error (.noRecords true none [] [] none))
@@ -582,16 +596,18 @@ def foreignOwnerAnswer (q : Query) (r : Response) : Bool :=
   (q.qtype == T_A || q.qtype == T_AAAA) &&
     r.answers.any fun x => x.data.ip?.isSome && !x.name.eq q.name
 
-/-- `C19.NegativeResponseUnfiltered`: a response that `from_response` turns into
-`NoRecordsFound` while its authority / additional section carries a record outside `zone`. -/
+/-- (historic, fixed by 030930c — kept as the shape of the regression cases) a response that
+`from_response` turns into `NoRecordsFound` while its authority / additional section carries a
+record outside `zone`. -/
 def negativeWithForeignRecords (zone : Name) (q : Query) (r : Response) : Bool :=
   (match fromResponse q r with
    | .error (.noRecords ..) => true
    | _ => false) &&
     (r.authorities ++ r.additionals).any fun x => !isSubzone zone x.name
 
-/-- the same class, answer-filter side: `NameServerPool::send` applies the answer filter to
-positive responses only, so a negative response keeps address records the filter denies. -/
+/-- `C19.NegativeResponseAnswerFilterSkipped`: `NameServerPool::send` applies the answer filter to
+positive responses only, so a negative response keeps the (in-bailiwick) address records of its
+authority / additional section that the filter denies. -/
 def negativeWithDeniedAddress (f : Acs) (q : Query) (r : Response) : Bool :=
   (match fromResponse q r with
    | .error (.noRecords ..) => true
